@@ -1,0 +1,257 @@
+//! `cc`: the built-in congestion controllers driven through the public `congestion::Controller` trait.
+//!
+//! `cc new reno|cubic|bbr <mtu>` builds the controller with its default config; every other request is
+//! one trait call. Times are nanoseconds after the controller's construction time.
+//!
+//! Float-derived intermediate values (Cubic's `w_cubic`/`w_est`/increments, BBR's target windows and its
+//! mode machine) are *observed inputs* of the model: the request line carries them after the positional
+//! arguments as `key=value` tokens, in the order the code computed them. `cc peek <request>` runs the
+//! request on a clone and returns exactly these tokens (the generator issues it off the record, then
+//! writes the real request with them). A request whose tokens differ from what the code computes is
+//! answered with `obs-mismatch …`.
+use std::panic::{catch_unwind, AssertUnwindSafe};
+use std::sync::Arc;
+
+use super::{num, tap_take, Comp, BAD};
+use crate::congestion::{Bbr, BbrConfig, Controller, Cubic, CubicConfig, NewReno, NewRenoConfig};
+use crate::connection::RttEstimator;
+use crate::{Duration, Instant};
+
+const MAX_T: u64 = 1 << 62;
+
+#[derive(Clone)]
+enum Ctl {
+    Reno(NewReno),
+    Cubic(Cubic),
+    Bbr(Bbr),
+}
+
+impl Ctl {
+    fn ctl(&mut self) -> &mut dyn Controller {
+        match self {
+            Self::Reno(c) => c,
+            Self::Cubic(c) => c,
+            Self::Bbr(c) => c,
+        }
+    }
+}
+
+pub(super) struct CcC {
+    base: Instant,
+    ctl: Option<Ctl>,
+}
+
+enum Req {
+    New(&'static str, u16),
+    Sent(u64, u64, u64),
+    Ack(u64, u64, u64, bool, u64),
+    EndAcks(u64, u64, bool, Option<u64>),
+    Cong(u64, u64, bool, bool, u64),
+    Spurious,
+    Mtu(u16),
+    Window,
+}
+
+fn flag(s: &str) -> Option<bool> {
+    match s {
+        "0" => Some(false),
+        "1" => Some(true),
+        _ => None,
+    }
+}
+
+fn time(s: &str) -> Option<u64> {
+    num(s).filter(|&t| t < MAX_T)
+}
+
+fn parse(w: &[&str]) -> Option<Req> {
+    Some(match w {
+        ["new", kind, mtu] => {
+            let kind = match *kind {
+                "reno" => "reno",
+                "cubic" => "cubic",
+                "bbr" => "bbr",
+                _ => return None,
+            };
+            Req::New(kind, u16::try_from(num(mtu)?).ok()?)
+        }
+        ["sent", now, bytes, pn] => Req::Sent(time(now)?, num(bytes)?, num(pn)?),
+        ["ack", now, sent, bytes, app, rtt] => {
+            Req::Ack(time(now)?, time(sent)?, num(bytes)?, flag(app)?, time(rtt)?)
+        }
+        ["endacks", now, in_flight, app, largest] => Req::EndAcks(
+            time(now)?,
+            num(in_flight)?,
+            flag(app)?,
+            if *largest == "-" { None } else { Some(num(largest)?) },
+        ),
+        ["cong", now, sent, persistent, ecn, lost] => Req::Cong(
+            time(now)?,
+            time(sent)?,
+            flag(persistent)?,
+            flag(ecn)?,
+            num(lost)?,
+        ),
+        ["spurious"] => Req::Spurious,
+        ["mtu", mtu] => Req::Mtu(u16::try_from(num(mtu)?).ok()?),
+        ["window"] => Req::Window,
+        _ => return None,
+    })
+}
+
+/// split `positional… key=value…`
+fn split_obs<'a>(w: &'a [&'a str]) -> (&'a [&'a str], &'a [&'a str]) {
+    let n = w.iter().position(|t| t.contains('=')).unwrap_or(w.len());
+    w.split_at(n)
+}
+
+impl CcC {
+    pub(super) fn new() -> Self {
+        Self {
+            base: Instant::now(),
+            ctl: None,
+        }
+    }
+
+    fn at(&self, t: u64) -> Instant {
+        self.base + Duration::from_nanos(t)
+    }
+
+    fn rel(&self, t: Instant) -> u64 {
+        t.saturating_duration_since(self.base).as_nanos() as u64
+    }
+
+    fn opt_rel(&self, t: Option<Instant>) -> String {
+        t.map_or_else(|| "-".to_string(), |t| self.rel(t).to_string())
+    }
+
+    fn state(&self) -> String {
+        match self.ctl.as_ref() {
+            None => "none".into(),
+            Some(Ctl::Reno(c)) => {
+                let (w, ss, rst, ba, mtu) = c.verif_state();
+                format!("w={w} ss={ss} rst={} ba={ba} mtu={mtu}", self.rel(rst))
+            }
+            Some(Ctl::Cubic(c)) => {
+                let ((w, ss, inc, rst), pre, mtu) = c.verif_state();
+                let pre = pre.map_or_else(
+                    || "-".to_string(),
+                    |(w, ss, inc, rst)| format!("{w}:{ss}:{inc}:{}", self.opt_rel(rst)),
+                );
+                format!("w={w} ss={ss} inc={inc} rst={} mtu={mtu} pre={pre}", self.opt_rel(rst))
+            }
+            Some(Ctl::Bbr(c)) => {
+                let s = c.verif_state();
+                format!(
+                    "mode={} full={} rs={} rw={} cwnd={} min={} init={} mtu={} lost={} macked={} msent={} endrec={} rend={} rc={} ab={}",
+                    s[0], s[1], s[2], s[3], s[4], s[5], s[6], s[7], s[8], s[9], s[10], s[11], s[12], s[13], s[14]
+                )
+            }
+        }
+    }
+
+    /// run one trait call on `ctl`; returns `window()` for `Req::Window`
+    fn call(&self, ctl: &mut Ctl, req: &Req) -> Option<u64> {
+        match *req {
+            Req::New(..) => unreachable!(),
+            Req::Sent(now, bytes, pn) => ctl.ctl().on_sent(self.at(now), bytes, pn),
+            Req::Ack(now, sent, bytes, app, rtt) => {
+                let rtt = RttEstimator::new(Duration::from_nanos(rtt));
+                ctl.ctl().on_ack(self.at(now), self.at(sent), bytes, app, &rtt)
+            }
+            Req::EndAcks(now, in_flight, app, largest) => {
+                ctl.ctl().on_end_acks(self.at(now), in_flight, app, largest)
+            }
+            Req::Cong(now, sent, persistent, ecn, lost) => {
+                ctl.ctl()
+                    .on_congestion_event(self.at(now), self.at(sent), persistent, ecn, lost)
+            }
+            Req::Spurious => ctl.ctl().on_spurious_congestion_event(),
+            Req::Mtu(mtu) => ctl.ctl().on_mtu_update(mtu),
+            Req::Window => return Some(ctl.ctl().window()),
+        }
+        None
+    }
+
+    /// the observed values the model needs for `req`, as request tokens
+    fn obs(req: &Req, taps: Vec<(&'static str, u64)>) -> Vec<String> {
+        taps.into_iter()
+            // BBR evaluates get_target_cwnd several times inside on_end_acks; only `window()` needs it
+            .filter(|(k, _)| *k != "tc" || matches!(req, Req::Window))
+            .map(|(k, v)| format!("{k}={v}"))
+            .collect()
+    }
+}
+
+impl Comp for CcC {
+    fn exec(&mut self, w: &[&str]) -> String {
+        let (peek, w) = match w.split_first() {
+            Some((&"peek", rest)) => (true, rest),
+            _ => (false, w),
+        };
+        let (pos, given) = split_obs(w);
+        let Some(req) = parse(pos) else {
+            return BAD.into();
+        };
+        if given.iter().any(|t| !t.contains('=')) {
+            return BAD.into();
+        }
+        if let Req::New(kind, mtu) = req {
+            if peek || !given.is_empty() {
+                return BAD.into();
+            }
+            self.base = Instant::now();
+            self.ctl = Some(match kind {
+                "reno" => Ctl::Reno(NewReno::new(Arc::new(NewRenoConfig::default()), self.base, mtu)),
+                "cubic" => Ctl::Cubic(Cubic::new(Arc::new(CubicConfig::default()), self.base, mtu)),
+                _ => Ctl::Bbr(Bbr::new(Arc::new(BbrConfig::default()), mtu)),
+            });
+            return format!("ok {}", self.state());
+        }
+        let Some(ctl) = self.ctl.as_ref() else {
+            return BAD.into();
+        };
+        if peek {
+            // off the record: what would the code observe? (on a clone; the real state is untouched)
+            let mut clone = ctl.clone();
+            tap_take();
+            let r = catch_unwind(AssertUnwindSafe(|| self.call(&mut clone, &req)));
+            let taps = tap_take();
+            let mut obs = Self::obs(&req, taps);
+            if r.is_err() {
+                // values seen up to the panic, then the marker
+                obs.push("panic=1".into());
+            }
+            return format!("obs {}", obs.join(" ")).trim_end().to_string();
+        }
+        if given == ["panic=1"] {
+            // the generator saw the clone panic inside a part the model treats as opaque
+            let mut ctl = self.ctl.take().unwrap();
+            let r = catch_unwind(AssertUnwindSafe(|| self.call(&mut ctl, &req)));
+            self.ctl = Some(ctl);
+            tap_take();
+            return match r {
+                Err(_) => "panic".into(),
+                Ok(_) => "obs-mismatch expected a panic".into(),
+            };
+        }
+        let mut ctl = self.ctl.take().unwrap();
+        tap_take();
+        // a panic propagates to the harness (which prints `panic`), with the controller put back first
+        let r = catch_unwind(AssertUnwindSafe(|| self.call(&mut ctl, &req)));
+        self.ctl = Some(ctl);
+        let taps = tap_take();
+        let r = match r {
+            Ok(r) => r,
+            Err(e) => std::panic::resume_unwind(e),
+        };
+        let seen = Self::obs(&req, taps);
+        if seen.iter().map(String::as_str).ne(given.iter().copied()) {
+            return format!("obs-mismatch {}", seen.join(" "));
+        }
+        match r {
+            Some(window) => format!("ok {window}"),
+            None => format!("ok {}", self.state()),
+        }
+    }
+}
